@@ -293,6 +293,13 @@ func cmdCheck(args []string) int {
 			funcsUnder = append(funcsUnder, lvc.contract.Pkg+"::"+lvc.contract.Key+" (proved by induction, then used as an axiom)")
 		}
 	}
+	if os.Getenv("GOVC_NOTES") != "" {
+		for _, vc := range vcs {
+			for _, n := range vc.imprecise {
+				fmt.Printf("NOTE %s: %s\n", vc.contract.Key, n)
+			}
+		}
+	}
 	if len(stale) > 0 {
 		for _, m := range stale {
 			fmt.Printf("STALE-CONTRACT property=%s %s\n", *prop, m)
